@@ -273,7 +273,7 @@ def gen_set(rng, idx, large=False):
                 t['actions'][pos] = dict(t='cmd', out=gen_text(rng), err=gen_text(rng, 1), exit=int(kind[4:]), write=False, save_out=None)
             else:
                 t['actions'][pos] = dict(t='py', ret=kind, out=gen_text(rng), err=gen_text(rng), write=False,
-                                         msg='boom %s %d' % (rng.choice(UNI), rng.randrange(1000)), exc=rng.choice(['RuntimeError', 'ValueError', 'KeyError', 'C08Error']))
+                                         msg='boom %s %d' % (rng.choice(UNI), rng.randrange(1000)), exc=rng.choice(['RuntimeError', 'ValueError', 'KeyError', 'C08Error', 'C08ArgsError', 'C08UnpicklableError']))
     # getargs / result_dep consumers (source: a later task)
     for i, t in enumerate(tasks):
         cands = [u for u in tasks[i + 1:] if any(a['t'] == 'py' and a.get('ret') == 'dict' for a in u['actions'])]
@@ -326,7 +326,7 @@ def gen_set(rng, idx, large=False):
             if rng.random() < 0.25:
                 may_fail = True
                 st['actions'][rng.randrange(na)] = dict(t='py', ret=rng.choice(['false', 'raise', 'taskfailed', 'taskerror']), out=gen_text(rng), err=gen_text(rng), write=False,
-                                                        msg='delayed boom %s' % rng.choice(UNI), exc=rng.choice(['RuntimeError', 'C08Error']))
+                                                        msg='delayed boom %s' % rng.choice(UNI), exc=rng.choice(['RuntimeError', 'C08Error', 'C08ArgsError']))
             srcs_v = [u for u in tasks if any(a['t'] == 'py' and a.get('ret') == 'dict' for a in u['actions'])]
             if srcs_v and rng.random() < 0.5:
                 u = rng.choice(srcs_v)
@@ -525,6 +525,21 @@ class C08Error(Exception):
     pass
 
 
+class C08ArgsError(Exception):
+    """application exception with its own constructor signature: cls(*exc.args) does not rebuild it, so it
+    does not survive a pickle round trip as an exception object (doit must ship only text to the main process)"""
+    def __init__(self, host, port):
+        super().__init__('cannot reach %s:%s' % (host, port))
+        self.host, self.port = host, port
+
+
+class C08UnpicklableError(Exception):
+    """holds something that cannot be pickled at all"""
+    def __init__(self, msg):
+        super().__init__(msg)
+        self.handle = (lambda: None)
+
+
 def _aux_write(name, obj):
     """side channel: written by whoever executes the action (worker thread / worker process), never through doit"""
     fd = os.open(os.path.join('aux', name), os.O_WRONLY | os.O_CREAT | os.O_APPEND, 0o644)
@@ -590,7 +605,10 @@ class PyAct(object):
         if ret == 'false':
             return False
         if ret == 'raise':
-            raise {'RuntimeError': RuntimeError, 'ValueError': ValueError, 'KeyError': KeyError, 'C08Error': C08Error}[s['exc']](s['msg'])
+            if s['exc'] == 'C08ArgsError':
+                raise C08ArgsError(s['msg'], 8080)
+            raise {'RuntimeError': RuntimeError, 'ValueError': ValueError, 'KeyError': KeyError, 'C08Error': C08Error,
+                   'C08UnpicklableError': C08UnpicklableError}[s['exc']](s['msg'])
         if ret in ('taskfailed', 'taskerror', 'noreport'):
             from doit.exceptions import TaskFailed, TaskError
             if ret == 'taskfailed':
